@@ -18,6 +18,15 @@ def decode_rule(F, rep):
     sname = b["tir"]["params"][0].get("name")
     calls = [n for n in tir.walk(root) if n.get("k") == "MethodCall" and (declared(n) or "").startswith("encoding_rs::Encoding::decode")]
     rep.ob("decode.single", len(calls) == 1, TRY_FROM, "decode-call", "expected exactly one encoding_rs decode call, found %d" % len(calls))
+    # every string this function produces comes out of that decode: one MeleeString construction, inside the match on the decode result
+    ctors = [n for n in tir.walk(root) if n.get("k") == "Call" and (declared(n) or "") == "game::shift_jis::MeleeString"]
+    inside = 0
+    if len(calls) == 1:
+        par0 = safety.parents(root)
+        m0 = par0.get(id(calls[0]))
+        if m0 is not None and m0.get("k") == "Match":
+            inside = sum(1 for c in ctors if any(x is c for a in m0["arms"] for x in tir.walk(a["body"])))
+    rep.ob("decode.only-path", len(ctors) == 1 and inside == 1, TRY_FROM, "result", "MeleeString::try_from builds its result on %d path(s), %d of them from the decoder's output: every field must go through the NUL truncation and the strict decoder (a fast path bypasses both)" % (len(ctors), inside))
     for c in calls:
         rep.ob("decode.no-replacement", declared(c) == "encoding_rs::Encoding::decode_without_bom_handling_and_without_replacement", TRY_FROM, "decoder",
                "decoder is %s: malformed sequences would be replaced by U+FFFD (or a BOM sniffed) instead of failing" % declared(c), tir.sp(c), sample={"decoder": declared(c)})
